@@ -20,7 +20,10 @@
               the parser fills from ``BooleanExpression.parse``.
   C12-TYPEERR ``_lt`` ends in ``raise LiquidTypeError`` for every operand pair it does not
               order, and booleans are excluded before numbers.
-Not decided: the value tables of _eq / _lt / _contains / empty / blank for particular operands.
+  C12-KINDS   (path-sensitive kind inference) Python's ``==`` between the operands of ``_eq`` is
+              reachable only when neither operand can be a bool or both are bools; Python's
+              ``<`` in ``_lt`` only with two strings or two non-bool numbers.
+Not decided: the remaining value tables of _eq / _contains / empty / blank for particular operands.
 """
 
 from __future__ import annotations
@@ -109,7 +112,7 @@ def _norm_eval(fn_node, ev: str) -> str:
 
 def run(repo: Repo) -> Result:
     res = Result(PID)
-    res.rules = ["C12-TABLE", "C12-ASSOC", "C12-ORDER", "C12-TRUTHY", "C12-TYPEERR"]
+    res.rules = ["C12-TABLE", "C12-ASSOC", "C12-ORDER", "C12-TRUTHY", "C12-TYPEERR", "C12-KINDS"]
     res.explanation = "operator tables, Pratt loop shape, comparator operand order and truthiness discipline decided on the AST of liquid.builtin.expressions.logical and the nodes that branch on conditions"
     res.assumptions = ["value tables of _eq/_lt/_contains/empty/blank are not decided"]
     mod = repo.module(L)
@@ -333,6 +336,34 @@ def run(repo: Repo) -> Result:
     if not (isinstance(ct.node.body[-1], ast.Raise) and "LiquidTypeError" in text(ct.node.body[-1])):
         res.add("C12-TYPEERR", ct.qual, "fallthrough", "_contains must end in raise LiquidTypeError", ct.file, ct.line)
     res.stats.update(binary_operators=bin_names, precedences={k: v[1] for k, v in prec_map.items()}, condition_tests=n_tests)
+    # ---- C12-KINDS: which operand kinds can reach Python's own == and < ---------------------
+    # Path-sensitive kind inference (sa/kinds.py, one run per combination of `if` outcomes):
+    # Python says 1 == True, 0 == False and True < 2.  In `_eq` a Python comparison of the two
+    # operands may be reached only when neither can be a bool or both are; in `_lt` only when
+    # both are strings or both are non-bool numbers.
+    from ..kinds import feasible, path_states
+
+    def operand_cmp(n):
+        return isinstance(n, ast.Compare) and len(n.ops) == 1 and isinstance(n.ops[0], (ast.Eq, ast.NotEq, ast.Lt, ast.Gt, ast.LtE, ast.GtE)) and all(isinstance(x, ast.Name) and x.id in ("left", "right") for x in [n.left] + n.comparators)
+
+    for fn_name in ("_eq", "_lt"):
+        f = repo.func(f"{L}.{fn_name}")
+        hits = [(n, st, fl) for n, st, fl in path_states(f.node, {}, operand_cmp) if feasible(fl, st, ("left", "right"))]
+        res.ob(f"kinds:{f.qual}", 2)
+        if not hits:
+            raise AnchorMissing(f"{f.qual}: no comparison of the two operands found; re-derive C12-KINDS")
+        bad = set()
+        for n, st, fl in hits:
+            kl, kr = fl.var_kinds(st, "left"), fl.var_kinds(st, "right")
+            if fn_name == "_eq":
+                ok = ("B" not in kl and "B" not in kr) or (kl <= {"B"} and kr <= {"B"})
+            else:
+                ok = (kl <= {"S"} and kr <= {"S"}) or (kl <= set("IFC") and kr <= set("IFC"))
+            if not ok:
+                bad.add((n.lineno, text(n), "".join(sorted(kl)), "".join(sorted(kr))))
+        for ln, src, kl, kr in sorted(bad):
+            what = "a bool can meet a non-bool in Python's ==, where 1 == True and 0 == False" if fn_name == "_eq" else "operands other than two strings or two non-bool numbers reach Python's <"
+            res.add("C12-KINDS", f.qual, f"{src}:{'bool-leak' if 'B' in kl + kr else 'kinds'}", f"{f.qual}: `{src}` is reachable with left in {{{kl}}} and right in {{{kr}}} — {what}", f.file, ln)
     return res
 
 
@@ -354,6 +385,9 @@ def selftest(repo: Repo):
         v("python-truthy", P, "    return not (obj is False or obj is None)", "    return bool(obj)", "C12-TRUTHY"),
         v("undefined-truthy", P, "    if is_undefined(obj):\n        return False\n", "", "C12-TRUTHY"),
         v("and-python-truthiness", P, "        return is_truthy(self.left.evaluate(context)) and is_truthy(\n            self.right.evaluate(context)\n        )", "        return self.left.evaluate(context) and self.right.evaluate(context)", "C12-ORDER"),
+        v("eq-bool-check-merged", P, "    if isinstance(right, bool):\n        left, right = right, left\n\n    if isinstance(left, bool):\n        return isinstance(right, bool) and left == right\n", "    if isinstance(left, bool) or isinstance(right, bool):\n        return isinstance(right, bool) and left == right\n", "C12-KINDS"),
+        v("eq-no-bool-guard", P, "    if isinstance(left, bool):\n        return isinstance(right, bool) and left == right\n", "", "C12-KINDS"),
+        v("lt-bool-after-num", P, "    if isinstance(left, bool) or isinstance(right, bool):\n        return False\n\n", "", "C12-KINDS"),
         v("lt-no-typeerror", P, "    raise LiquidTypeError(\n        f\"'<' and '>' are not supported between '{left.__class__.__name__}' \"\n        f\"and '{right.__class__.__name__}'\",\n        token=token,\n    )\n\n\ndef _contains", "    return False\n\n\ndef _contains", "C12-TYPEERR"),
         v("if-condition-primitive", "liquid/builtin/tags/if_tag.py", "        condition = BooleanExpression.parse(self.env, tokens)", "        condition = parse_primitive(self.env, tokens)", "C12-TRUTHY"),
         v("case-uses-truthiness", "liquid/builtin/tags/cycle_tag.py", "        if self.group:\n            _group = self.group.evaluate(context)\n            group_name = \"__UNDEFINED\" if is_undefined(_group) else str(_group)\n        else:\n            group_name = \"\"\n\n        args = [arg.evaluate(context) for arg in self.args]", "        if self.group and self.group.evaluate(context):\n            _group = self.group.evaluate(context)\n            group_name = \"__UNDEFINED\" if is_undefined(_group) else str(_group)\n        else:\n            group_name = \"\"\n\n        args = [arg.evaluate(context) for arg in self.args]", "C12-TRUTHY"),
